@@ -1,1 +1,290 @@
+/-
+Helper lemmas about the model of `riddle::lexer` (property C16, lexical part): character codes,
+`takeRun`, the identifier / number / white-space / comment branches of `nextTok`.
+-/
 import OratioModel
+namespace Oratio
+namespace Riddle
+
+/-! ## character codes -/
+theorem ch_48 : ch '0' = 48 := rfl
+theorem ch_57 : ch '9' = 57 := rfl
+theorem ch_95 : ch '_' = 95 := rfl
+theorem ch_97 : ch 'a' = 97 := rfl
+theorem ch_122 : ch 'z' = 122 := rfl
+theorem ch_65 : ch 'A' = 65 := rfl
+theorem ch_90 : ch 'Z' = 90 := rfl
+theorem ch_32 : ch ' ' = 32 := rfl
+theorem ch_9 : ch '\t' = 9 := rfl
+theorem ch_13 : ch '\r' = 13 := rfl
+theorem ch_10 : ch '\n' = 10 := rfl
+theorem ch_34 : ch '\"' = 34 := rfl
+theorem ch_92 : ch '\\' = 92 := rfl
+theorem ch_47 : ch '/' = 47 := rfl
+theorem ch_42 : ch '*' = 42 := rfl
+theorem ch_61 : ch '=' = 61 := rfl
+theorem ch_62 : ch '>' = 62 := rfl
+theorem ch_60 : ch '<' = 60 := rfl
+theorem ch_43 : ch '+' = 43 := rfl
+theorem ch_45 : ch '-' = 45 := rfl
+theorem ch_124 : ch '|' = 124 := rfl
+theorem ch_38 : ch '&' = 38 := rfl
+theorem ch_94 : ch '^' = 94 := rfl
+theorem ch_33 : ch '!' = 33 := rfl
+theorem ch_46 : ch '.' = 46 := rfl
+theorem ch_44 : ch ',' = 44 := rfl
+theorem ch_59 : ch ';' = 59 := rfl
+theorem ch_58 : ch ':' = 58 := rfl
+theorem ch_40 : ch '(' = 40 := rfl
+theorem ch_41 : ch ')' = 41 := rfl
+theorem ch_91 : ch '[' = 91 := rfl
+theorem ch_93 : ch ']' = 93 := rfl
+theorem ch_123 : ch '{' = 123 := rfl
+theorem ch_125 : ch '}' = 125 := rfl
+
+theorem isDigit_iff {c : Int} : isDigit c = true ↔ 48 ≤ c ∧ c ≤ 57 := by
+  simp only [isDigit, Bool.and_eq_true, decide_eq_true_eq]
+  simp only [ch_48, ch_57]
+theorem isDigit_false_iff {c : Int} : isDigit c = false ↔ ¬ (48 ≤ c ∧ c ≤ 57) := by
+  rw [← isDigit_iff]; simp
+theorem isIdStart_iff {c : Int} : isIdStart c = true ↔ (c = 95 ∨ (97 ≤ c ∧ c ≤ 122) ∨ (65 ≤ c ∧ c ≤ 90)) := by
+  simp only [isIdStart, Bool.or_eq_true, Bool.and_eq_true, decide_eq_true_eq, beq_iff_eq]
+  simp only [ch_95, ch_97, ch_122, ch_65, ch_90, or_assoc]
+theorem isIdPart_iff {c : Int} : isIdPart c = true ↔ (c = 95 ∨ (97 ≤ c ∧ c ≤ 122) ∨ (65 ≤ c ∧ c ≤ 90) ∨ (48 ≤ c ∧ c ≤ 57)) := by
+  simp only [isIdPart, isDigit, Bool.or_eq_true, Bool.and_eq_true, decide_eq_true_eq, beq_iff_eq]
+  simp only [ch_95, ch_97, ch_122, ch_65, ch_90, ch_48, ch_57, or_assoc]
+theorem isSpace_iff {c : Int} : isSpace c = true ↔ (c = 32 ∨ c = 9 ∨ c = 13 ∨ c = 10) := by
+  simp only [isSpace, Bool.or_eq_true, beq_iff_eq, ch_32, ch_9, ch_13, ch_10, or_assoc]
+theorem isSpace_false_iff {c : Int} : isSpace c = false ↔ ¬ (c = 32 ∨ c = 9 ∨ c = 13 ∨ c = 10) := by
+  rw [← isSpace_iff]; simp
+
+/-! ## takeRun -/
+
+theorem takeRun_append (p : Int → Bool) (w : List Int) (rest : Stream)
+    (hall : ∀ c ∈ w, p c = true) (hr : p (cur rest) = false) :
+    takeRun p (w ++ rest) = (w, rest) := by
+  induction w with
+  | nil =>
+    cases rest with
+    | nil => simp [takeRun]
+    | cons d r =>
+      have : p d = false := by simpa [cur] using hr
+      simp [takeRun, this]
+  | cons c w ih =>
+    have hc : p c = true := hall c (by simp)
+    have := ih (fun c hc => hall c (by simp [hc]))
+    simp only [List.cons_append, takeRun, hc, if_true, this]
+
+theorem takeRun_length (p : Int → Bool) (s : Stream) :
+    (takeRun p s).1.length + (takeRun p s).2.length = s.length := by
+  induction s with
+  | nil => simp [takeRun]
+  | cons c r ih =>
+    by_cases hc : p c = true
+    · simp only [takeRun, hc, if_true, List.length_cons]; omega
+    · simp [takeRun, hc]
+
+theorem takeRun_snd_length_le (p : Int → Bool) (s : Stream) : (takeRun p s).2.length ≤ s.length := by
+  have := takeRun_length p s; omega
+
+theorem takeRun_snd_length_lt (p : Int → Bool) (c : Int) (r : Stream) (h : p c = true) :
+    (takeRun p (c :: r)).2.length ≤ r.length := by
+  simp only [takeRun, h, if_true]
+  exact takeRun_snd_length_le p r
+
+theorem nextTok_idStart (c : Int) (r : Stream) (n : Nat) (h : isIdStart c = true) :
+    nextTok (n+1) (c :: r) = .ok (wordTok (takeRun isIdPart (c::r)).1, (takeRun isIdPart (c::r)).2) := by
+  have hc := isIdStart_iff.1 h
+  have hs : isSpace c = false := by rw [isSpace_false_iff]; omega
+  have hd : isDigit c = false := by rw [isDigit_false_iff]; omega
+  unfold nextTok
+  simp only [hs, hd, h, ch_34, ch_47, ch_42, ch_61, ch_62, ch_60, ch_43, ch_45, ch_124, ch_38, ch_94, ch_33, ch_46, ch_44,
+    ch_59, ch_58, ch_40, ch_41, ch_91, ch_93, ch_123, ch_125, beq_iff_eq]
+  repeat (rw [if_neg (by first | omega | decide)])
+
+  simp
+
+theorem nextTok_digit (c : Int) (r : Stream) (n : Nat) (h : isDigit c = true) :
+    nextTok (n+1) (c :: r) = lexNumber (c :: r) := by
+  have hc := isDigit_iff.1 h
+  have hs : isSpace c = false := by rw [isSpace_false_iff]; omega
+  unfold nextTok
+  simp only [hs, h, ch_34, ch_47, ch_42, ch_61, ch_62, ch_60, ch_43, ch_45, ch_124, ch_38, ch_94, ch_33, ch_46, ch_44,
+    ch_59, ch_58, ch_40, ch_41, ch_91, ch_93, ch_123, ch_125, beq_iff_eq]
+  repeat (rw [if_neg (by first | omega | decide)])
+  simp
+
+theorem nextTok_ident (w : List Int) (rest : Stream) (n : Nat)
+    (hw : w ≠ []) (h0 : isIdStart (w.headD 0) = true) (hall : ∀ c ∈ w, isIdPart c = true)
+    (hr : isIdPart (cur rest) = false) :
+    nextTok (n + 1) (w ++ rest) = .ok (wordTok w, rest) := by
+  cases w with
+  | nil => exact absurd rfl hw
+  | cons c w' =>
+    have h0' : isIdStart c = true := by simpa using h0
+    rw [List.cons_append, nextTok_idStart c _ n h0', ← List.cons_append, takeRun_append isIdPart _ _ hall hr]
+
+theorem wordTok_id (w : List Int) (h : ∀ k ∈ keywords, strInts k.1 ≠ w) : wordTok w = .id w := by
+  unfold wordTok
+  have : keywords.find? (fun k => strInts k.1 == w) = none := by
+    rw [List.find?_eq_none]
+    intro k hk
+    simpa using h k hk
+  rw [this]
+
+theorem digitsVal_snoc (ds : List Int) (d : Int) : digitsVal (ds ++ [d]) = digitsVal ds * 10 + (d - ch '0') := by
+  simp [digitsVal, List.foldl_append]
+
+theorem lexNumber_int (ds : List Int) (rest : Stream)
+    (hall : ∀ c ∈ ds, isDigit c = true)
+    (hr : isDigit (cur rest) = false) (hdot : cur rest ≠ ch '.') (hfit : digitsVal ds ≤ longMax) :
+    lexNumber (ds ++ rest) = .ok (.int (digitsVal ds), rest) := by
+  unfold lexNumber
+  rw [takeRun_append isDigit _ _ hall hr]
+  simp only [beq_iff_eq, hdot, if_false]
+  rw [if_neg (by omega)]
+
+theorem nextTok_int (ds : List Int) (rest : Stream) (n : Nat)
+    (hd : ds ≠ []) (hall : ∀ c ∈ ds, isDigit c = true)
+    (hr : isDigit (cur rest) = false) (hdot : cur rest ≠ ch '.') (hfit : digitsVal ds ≤ longMax) :
+    nextTok (n + 1) (ds ++ rest) = .ok (.int (digitsVal ds), rest) := by
+  cases ds with
+  | nil => exact absurd rfl hd
+  | cons c ds' =>
+    rw [List.cons_append, nextTok_digit c _ n (hall c (by simp)), ← List.cons_append]
+    exact lexNumber_int _ _ hall hr hdot hfit
+
+theorem lexNumber_real (i d : List Int) (rest : Stream)
+    (halli : ∀ c ∈ i, isDigit c = true) (halld : ∀ c ∈ d, isDigit c = true)
+    (hr : isDigit (cur rest) = false) (hdot : cur rest ≠ ch '.') (hlen : d.length ≤ 18)
+    (hfit : digitsVal (i ++ d) ≤ longMax) :
+    lexNumber (i ++ [ch '.'] ++ d ++ rest) = .ok (.real (R.mk2 (digitsVal (i ++ d)) (10 ^ d.length)), rest) := by
+  unfold lexNumber
+  have e : i ++ [ch '.'] ++ d ++ rest = i ++ (ch '.' :: (d ++ rest)) := by simp
+  rw [e, takeRun_append isDigit i _ halli (by simp [cur, isDigit_false_iff, ch_46])]
+  have hc : cur (ch '.' :: (d ++ rest)) = ch '.' := rfl
+  simp only [hc, beq_self_eq_true, if_true, List.drop_one, List.tail_cons]
+  rw [takeRun_append isDigit d _ halld hr]
+  simp only [beq_iff_eq, hdot, if_false]
+  rw [if_neg (by omega), if_neg (by omega)]
+
+theorem nextTok_real (i d : List Int) (rest : Stream) (n : Nat)
+    (hi : i ≠ []) (halli : ∀ c ∈ i, isDigit c = true) (halld : ∀ c ∈ d, isDigit c = true)
+    (hr : isDigit (cur rest) = false) (hdot : cur rest ≠ ch '.') (hlen : d.length ≤ 18)
+    (hfit : digitsVal (i ++ d) ≤ longMax) :
+    nextTok (n + 1) (i ++ [ch '.'] ++ d ++ rest) = .ok (.real (R.mk2 (digitsVal (i ++ d)) (10 ^ d.length)), rest) := by
+  rw [← lexNumber_real i d rest halli halld hr hdot hlen hfit]
+  cases i with
+  | nil => exact absurd rfl hi
+  | cons c i' =>
+    simp only [List.cons_append]
+    exact nextTok_digit c _ n (halli c (by simp))
+
+/-! ## white space and comments -/
+
+theorem dropWhile_space_append (ws : List Int) (s : Stream)
+    (hws : ∀ c ∈ ws, isSpace c = true) (hs : isSpace (cur s) = false) (hne : s ≠ []) :
+    (ws ++ s).dropWhile isSpace = s := by
+  induction ws with
+  | nil =>
+    cases s with
+    | nil => exact absurd rfl hne
+    | cons d r =>
+      have : isSpace d = false := by simpa [cur] using hs
+      simp [this]
+  | cons c ws ih =>
+    have hc : isSpace c = true := hws c (by simp)
+    simp only [List.cons_append, List.dropWhile, hc]
+    exact ih (fun c h => hws c (by simp [h]))
+
+theorem nextTok_space (c : Int) (r : Stream) (n : Nat) (h : isSpace c = true) :
+    nextTok (n + 1) (c :: r) =
+      (if cur (r.dropWhile isSpace) == -1 then .ok (.sym .EOF, (r.dropWhile isSpace).drop 1)
+       else nextTok n (r.dropWhile isSpace)) := by
+  have hc := isSpace_iff.1 h
+  rw [nextTok]
+  simp only [h, if_true]
+  rw [if_neg (by simp only [beq_iff_eq]; omega)]
+
+theorem nextTok_whitespace (ws : List Int) (s : Stream) (n : Nat)
+    (hws : ∀ c ∈ ws, isSpace c = true) (hs : isSpace (cur s) = false) (hne : s ≠ []) (hc : cur s ≠ -1) :
+    nextTok (n + 2) (ws ++ s) = nextTok (n + 1) s ∨ ws = [] := by
+  cases ws with
+  | nil => exact Or.inr rfl
+  | cons c ws' =>
+    left
+    rw [List.cons_append, nextTok_space c _ (n + 1) (hws c (by simp)),
+      dropWhile_space_append ws' s (fun c h => hws c (by simp [h])) hs hne]
+    simp only [beq_iff_eq, hc, if_false]
+
+theorem skipLine_body (body : List Int) (s : Stream)
+    (hb : ∀ c ∈ body, c ≠ ch '\r' ∧ c ≠ ch '\n' ∧ c ≠ -1) :
+    skipLine (body ++ (ch '\n' :: s)) = some (ch '\n' :: s) := by
+  induction body with
+  | nil => simp [skipLine]
+  | cons c b ih =>
+    obtain ⟨h1, h2, h3⟩ := hb c (by simp)
+    simp only [List.cons_append, skipLine, beq_iff_eq, Bool.or_eq_true, h1, h2, h3, or_self, if_false]
+    exact ih (fun c h => hb c (by simp [h]))
+
+theorem nextTok_slash (r : Stream) (n : Nat) :
+    nextTok (n + 1) (ch '/' :: r) =
+      (if cur r == ch '/' then
+          match skipLine (r.drop 1) with
+          | none => .ok (.sym .EOF, [])
+          | some r' => nextTok n r'
+        else if cur r == ch '*' then
+          match skipBlock false (r.drop 1) with
+          | .ok r' => nextTok n r'
+          | .error e => .error e
+        else .ok (.sym .SLASH, r)) := by
+  rw [nextTok]
+  have hs : isSpace (ch '/') = false := by decide
+  simp only [hs]
+  rw [if_neg (by decide), if_neg (by decide), if_neg (by decide), if_pos (by decide)]
+  rfl
+
+theorem nextTok_line_comment (body : List Int) (s : Stream) (n : Nat)
+    (hb : ∀ c ∈ body, c ≠ ch '\r' ∧ c ≠ ch '\n' ∧ c ≠ -1) :
+    nextTok (n + 2) ([ch '/', ch '/'] ++ body ++ (ch '\n' :: s)) = nextTok (n + 1) (ch '\n' :: s) := by
+  have e : [ch '/', ch '/'] ++ body ++ (ch '\n' :: s) = ch '/' :: (ch '/' :: (body ++ (ch '\n' :: s))) := by simp
+  rw [e, nextTok_slash]
+  have hc : cur (ch '/' :: (body ++ (ch '\n' :: s))) = ch '/' := rfl
+  simp only [hc, beq_self_eq_true, if_true, List.drop_one, List.tail_cons, skipLine_body body s hb]
+
+theorem skipBlock_body (body : List Int) (x : Stream) (hb : ∀ c ∈ body, c ≠ ch '*' ∧ c ≠ -1) :
+    skipBlock false (body ++ x) = skipBlock false x := by
+  induction body with
+  | nil => rfl
+  | cons c b ih =>
+    obtain ⟨h1, h2⟩ := hb c (by simp)
+    have h1' : (c == ch '*') = false := by simpa using h1
+    simp only [List.cons_append, skipBlock, beq_iff_eq, h2, if_false, Bool.false_and, h1']
+    simpa using ih (fun c h => hb c (by simp [h]))
+
+theorem skipBlock_stars (b : Bool) (k : Nat) (s : Stream) :
+    skipBlock b (List.replicate (k + 1) (ch '*') ++ (ch '/' :: s)) = .ok s := by
+  induction k generalizing b with
+  | zero =>
+    simp [List.replicate, skipBlock, ch_42, ch_47]
+  | succ k ih =>
+    have h1 : ¬ (ch '*' = -1) := by decide
+    have h2 : (ch '*' == ch '/') = false := by decide
+    rw [List.replicate_succ, List.cons_append, skipBlock]
+    simp only [beq_iff_eq, h1, if_false, h2, Bool.and_false, beq_self_eq_true]
+    exact ih true
+
+theorem nextTok_block_comment (body : List Int) (k : Nat) (s : Stream) (n : Nat)
+    (hb : ∀ c ∈ body, c ≠ ch '*' ∧ c ≠ -1) :
+    nextTok (n + 2) ([ch '/', ch '*'] ++ body ++ List.replicate (k + 1) (ch '*') ++ (ch '/' :: s)) = nextTok (n + 1) s := by
+  have e : [ch '/', ch '*'] ++ body ++ List.replicate (k + 1) (ch '*') ++ (ch '/' :: s)
+      = ch '/' :: (ch '*' :: (body ++ (List.replicate (k + 1) (ch '*') ++ (ch '/' :: s)))) := by simp
+  rw [e, nextTok_slash]
+  have hc : cur (ch '*' :: (body ++ (List.replicate (k + 1) (ch '*') ++ (ch '/' :: s)))) = ch '*' := rfl
+  have h2 : (ch '*' == ch '/') = false := by decide
+  simp only [hc, h2, beq_self_eq_true, if_true, List.drop_one, List.tail_cons, skipBlock_body body _ hb,
+    skipBlock_stars]
+  simp
+
+end Riddle
+end Oratio
